@@ -26,7 +26,8 @@ OTHER_SECRET = "zzzzzzzzzzzzzzzzzzzzzzzzzzzzzzzzzzzzzz"
 
 # symbolic key numbers used by the Gallina model (Lib/Crypto.v Key n)
 KEYNUM = {"iss_rsa1": 0, "iss_rsa2": 1, "iss_ec": 2, "iss2_rsa": 3, "foreign_rsa": 4, "foreign_ec": 5,
-          "secret": 6, "pub_as_hmac": 7, "other_secret": 8, "iss2_ec": 9, "iss3_rsa": 10}
+          "secret": 6, "pub_as_hmac": 7, "other_secret": 8, "iss2_ec": 9, "iss3_rsa": 10,
+          "rp_enc": 11, "foreign_enc": 12}
 
 _KEYS = None
 
@@ -48,6 +49,8 @@ def keys():
             "iss3_rsa": new_rsa_key(kid="t1", use="sig"),
             "foreign_rsa": new_rsa_key(kid="r1", use="sig"),      # same kid as a registered key, different key
             "foreign_ec": new_ec_key("P-256", kid="e1", use="sig"),
+            "rp_enc": new_rsa_key(kid="enc1", use="enc"),        # the relying party's own decryption key
+            "foreign_enc": new_rsa_key(kid="enc1", use="enc"),   # somebody else's
         }
         k["secret"] = SYMKey(key=SECRET, use="sig")
         k["other_secret"] = SYMKey(key=OTHER_SECRET, use="sig")
@@ -160,8 +163,11 @@ def client_config(issuer=ISS, client_id=CLIENT_ID, sigalg=None, allow_none=False
 
 
 def make_client(issuer=ISS, client_id=CLIENT_ID, sigalg=None, reg="static", allow_none=False, skew=0,
-                allow_missing_kid=False, known_issuers=(ISS, ISS2), response_types=None, extra=None):
-    """A real StandAloneClient, statically configured, talking to a FakeOP."""
+                allow_missing_kid=False, known_issuers=(ISS, ISS2), response_types=None, extra=None,
+                enc=None, dec=True):
+    """A real StandAloneClient, statically configured, talking to a FakeOP.
+    enc: None or (alg, enc) the client registered / is configured for ID-token encryption;
+    dec: the client owns a decryption key."""
     from idpyoidc.client.oauth2.stand_alone_client import StandAloneClient
     op = FakeOP()
     conf = client_config(issuer, client_id, sigalg if reg == "static" else None, allow_none, skew, allow_missing_kid,
@@ -177,8 +183,15 @@ def make_client(issuer=ISS, client_id=CLIENT_ID, sigalg=None, reg="static", allo
         rr = {"client_id": client_id, "client_secret": SECRET}
         if sigalg is not None:
             rr["id_token_signed_response_alg"] = sigalg
+        if enc:
+            rr["id_token_encrypted_response_alg"], rr["id_token_encrypted_response_enc"] = enc
         ctx.registration_response = rr
+    elif enc:
+        ctx.claims.set_usage("id_token_encrypted_response_alg", enc[0])
+        ctx.claims.set_usage("id_token_encrypted_response_enc", enc[1])
     ctx.clock_skew = skew
+    if dec:
+        client.get_attribute("keyjar").import_jwks({"keys": [keys()["rp_enc"].serialize(private=True)]}, "")
     load_issuer_keys(client.get_attribute("keyjar"), known_issuers)
     client.fake_op = op
     return client
@@ -315,6 +328,7 @@ EXC = {
     "NoSuitableSigningKeys": "E_NoSuitableSigningKeys", "SignerAlgError": "E_SignerAlgError",
     "DecodeError": "E_DecodeError", "ParameterError": "E_ParameterError", "IssuerNotFound": "E_IssuerNotFound",
     "ResponseError": "E_ResponseError", "OidcServiceError": "E_OidcServiceError",
+    "HeaderError": "E_HeaderError", "NoSuitableDecryptionKey": "E_NoSuitableDecryptionKey",
 }
 
 
@@ -337,6 +351,8 @@ def jar_of(keyjar):
     out = []
     for owner in keyjar.owners():
         for k in keyjar.get_issuer_keys(owner):
+            if k.use == "enc":
+                continue        # KeyIssuer.get("sig", ...) skips them; see dec_of
             num = None
             for name, mine in ks.items():
                 if k.kty != mine.kty:
@@ -354,18 +370,30 @@ def jar_of(keyjar):
     return out
 
 
+def dec_of(keyjar):
+    """The client's own decryption keys (keyjar.get_decrypt_key(owner="")), as key numbers."""
+    out = []
+    for k in keyjar.get_issuer_keys(""):
+        if k.use == "enc" and k.kty == "RSA":
+            n = [KEYNUM[name] for name in ("rp_enc", "foreign_enc")
+                 if keys()[name].serialize(private=False)["n"] == k.serialize(private=False)["n"]]
+            out.append(n[0] if n else 98)
+    return out
+
+
 def coq_jar(j):
     kt = {"RSA": "KRsa", "EC": "KEc", "oct": "KOct"}
     return I.share(coq_list(["(mkJE %s %s %s %s)" % (coq_str(o), kt[t], coq_str(kid), coq_nat(n)) for o, t, kid, n in j],
                             "jar_entry"), "list jar_entry")
 
 
-def coq_kwargs(kw, jar):
-    return I.share("(mkKw %s %s %s %s %s %s %s %s %s %s)" % (
+def coq_kwargs(kw, jar, dec=()):
+    return I.share("(mkKw %s %s %s %s %s %s %s %s %s %s %s %s %s)" % (
         coq_ostr(kw.get("iss")), coq_ostr(kw.get("client_id")), coq_ostr(kw.get("sigalg")),
         coq_ostr(kw.get("allowed_sign_alg")), coq_bool(kw.get("allow_sign_alg_none", False)),
         coq_opt(kw.get("skew"), coq_z, "Z"), coq_opt(kw.get("nonce_storage_time"), coq_z, "Z"),
-        coq_bool(kw.get("allow_missing_kid", False)), coq_ostr(kw.get("nonce")), coq_jar(jar)), "kwargs")
+        coq_bool(kw.get("allow_missing_kid", False)), coq_ostr(kw.get("nonce")), coq_jar(jar),
+        coq_ostr(kw.get("encalg")), coq_ostr(kw.get("encenc")), coq_list([coq_nat(n) for n in dec], "nat")), "kwargs")
 
 
 def signer_num(tok):
@@ -376,8 +404,12 @@ def signer_num(tok):
 
 
 def coq_token(tok):
-    return I.share("(mkTok %s %s %s %s)" % (coq_str(tok["alg"]), coq_ostr(tok["kid"]),
-                                            coq_opt(signer_num(tok), coq_nat, "nat"), coq_dict(tok["claims"])), "token")
+    w = tok.get("wrap")
+    wt = "(@None jwe_wrap)" if not w else "(Some (mkJwe %s %s %s))" % (
+        coq_str(w["alg"]), coq_str(w["enc"]), coq_opt(KEYNUM.get(w["key"]), coq_nat, "nat"))
+    return I.share("(mkTok %s %s %s %s %s)" % (coq_str(tok["alg"]), coq_ostr(tok["kid"]),
+                                               coq_opt(signer_num(tok), coq_nat, "nat"), coq_dict(tok["claims"]), wt),
+                   "token")
 
 
 def coq_hash_table(values):
@@ -406,7 +438,16 @@ def modellable(v):
 
 
 def mint_tok(tok):
-    return mint(tok["alg"], tok["signer"], tok["claims"], tok["kid"], tok.get("sigfault"))
+    jws = mint(tok["alg"], tok["signer"], tok["claims"], tok["kid"], tok.get("sigfault"))
+    w = tok.get("wrap")
+    if not w:
+        return jws
+    # a nested JWT: the JWS encrypted to the named key
+    from cryptojwt.jwe.jwe import JWE
+    import warnings
+    with warnings.catch_warnings():
+        warnings.simplefilter("ignore")
+        return JWE(jws, alg=w["alg"], enc=w["enc"], cty="JWT").encrypt(keys=[keys()[w["key"]]])
 
 
 # ================================================================================================
@@ -627,6 +668,34 @@ def fault_matrix(path):
     return F
 
 
+# ---- encrypted delivery: the ID Token as a JWE around the JWS (nested JWT)
+ENC = ("RSA-OAEP", "A256GCM")
+WRAPS = [
+    ("jwe:good", {"alg": "RSA-OAEP", "enc": "A256GCM", "key": "rp_enc"}),
+    ("jwe:foreign-recipient", {"alg": "RSA-OAEP", "enc": "A256GCM", "key": "foreign_enc"}),
+    ("jwe:alg-RSA-OAEP-256", {"alg": "RSA-OAEP-256", "enc": "A256GCM", "key": "rp_enc"}),
+    ("jwe:alg-RSA1_5", {"alg": "RSA1_5", "enc": "A256GCM", "key": "rp_enc"}),
+    ("jwe:enc-A128GCM", {"alg": "RSA-OAEP", "enc": "A128GCM", "key": "rp_enc"}),
+    ("jwe:enc-A128CBC-HS256", {"alg": "RSA-OAEP", "enc": "A128CBC-HS256", "key": "rp_enc"}),
+]
+ENC_SETTINGS = (
+    [dict(sigalg=sa, reg="dynamic", allow_none=False, skew=0, allow_missing_kid=False, enc=ENC, dec=True)
+     for sa in ("RS256", "ES256", "HS256", None, "none")]
+    + [dict(sigalg="RS256", reg="dynamic", allow_none=False, skew=0, allow_missing_kid=False, enc=None, dec=True),
+       dict(sigalg="RS256", reg="dynamic", allow_none=False, skew=0, allow_missing_kid=False, enc=ENC, dec=False),
+       dict(sigalg="RS256", reg="static", allow_none=False, skew=0, allow_missing_kid=False, enc=ENC, dec=True),
+       dict(sigalg="ES256", reg="static", allow_none=True, skew=10, allow_missing_kid=True, enc=ENC, dec=True)])
+
+
+def wrapped_fault(wrap, inner):
+    """deliver the (possibly faulty) JWS inside the given JWE"""
+    def f(case):
+        if inner:
+            inner(case)
+        case["tok"]["wrap"] = dict(wrap)
+    return f
+
+
 def make_case(path, setting, delivery, fault_name, fault_fn, now=T0):
     case = base_case(path, setting, delivery, now)
     case["fault"] = fault_name
@@ -748,14 +817,18 @@ def cfg_of_client(client, usage_sigalg_explicit=None):
         "allow_none": bool(va.get("allow_sign_alg_none", False)),
         "skew": ctx.clock_skew, "allow_missing_kid": bool(ctx.allow.get("missing_kid")),
         "jar": jar_of(client.get_attribute("keyjar")),
+        "encalg": rr.get("id_token_encrypted_response_alg") or ctx.claims.get_usage("id_token_encrypted_response_alg"),
+        "encenc": rr.get("id_token_encrypted_response_enc") or ctx.claims.get_usage("id_token_encrypted_response_enc"),
+        "dec": dec_of(client.get_attribute("keyjar")),
     }
 
 
 def coq_cfg(c):
-    return I.share("(mkCfg %s %s %s %s %s %s %s %s %s)" % (
+    return I.share("(mkCfg %s %s %s %s %s %s %s %s %s %s %s %s)" % (
         coq_str(c["issuer"]), coq_ostr(c["pi_issuer"]), coq_str(c["client_id"]), coq_ostr(c["reg_sigalg"]),
         coq_ostr(c["usage_sigalg"]), coq_bool(c["allow_none"]), coq_z(c["skew"]), coq_bool(c["allow_missing_kid"]),
-        coq_jar(c["jar"])), "rp_cfg")
+        coq_jar(c["jar"]), coq_ostr(c["encalg"] or None), coq_ostr(c["encenc"] or None),
+        coq_list([coq_nat(n) for n in c["dec"]], "nat")), "rp_cfg")
 
 
 class World:
@@ -971,15 +1044,19 @@ def fresh_world(world):
 _MSG_JAR = None
 
 
-def msg_keyjar():
+def msg_keyjar(dec=True):
     global _MSG_JAR
     if _MSG_JAR is None:
+        _MSG_JAR = {}
+    if dec not in _MSG_JAR:
         kj = KeyJar()
         kj.add_symmetric("", SECRET)
         kj.add_symmetric(CLIENT_ID, SECRET)
+        if dec:
+            kj.import_jwks({"keys": [keys()["rp_enc"].serialize(private=True)]}, "")
         load_issuer_keys(kj, (ISS, ISS2))
-        _MSG_JAR = (kj, jar_of(kj))
-    return _MSG_JAR
+        _MSG_JAR[dec] = (kj, jar_of(kj), dec_of(kj))
+    return _MSG_JAR[dec]
 
 
 MSG_VARIANTS = ("full", "no-nonce", "no-iss", "no-client_id", "allowed_sign_alg")
@@ -988,8 +1065,8 @@ MSG_VARIANTS = ("full", "no-nonce", "no-iss", "no-client_id", "allowed_sign_alg"
 def run_msg_case(case, variant, clock):
     """Message API: oidc.AuthorizationResponse / AccessTokenResponse .verify(**kwargs)."""
     from idpyoidc.message.oidc import AuthorizationResponse, AccessTokenResponse
-    kj, jar = msg_keyjar()
     cfg, ctx, tok = case["cfg"], case["ctx"], case["tok"]
+    kj, jar, dec = msg_keyjar(cfg.get("dec", True))
     nonce = "n-0123456789abcdef"
     resolve(case, nonce, "n-other-flow-nonce")
     kw = {"keyjar": kj, "verify": True, "iss": ISS, "client_id": CLIENT_ID, "skew": cfg["skew"], "nonce": nonce}
@@ -999,6 +1076,8 @@ def run_msg_case(case, variant, clock):
         kw["allow_sign_alg_none"] = True
     if cfg["allow_missing_kid"]:
         kw["allow_missing_kid"] = True
+    if cfg.get("enc"):
+        kw["encalg"], kw["encenc"] = cfg["enc"]
     if variant == "no-nonce":
         del kw["nonce"]
     elif variant == "no-iss":
@@ -1039,7 +1118,7 @@ def run_msg_case(case, variant, clock):
     hashed = [v for v in (params.get("code"), params.get("access_token")) if isinstance(v, str)]
     has_tok = "id_token" in model_params
     term = "(%s, %s, (mkResp %s %s), %s, %s, %s)" % (
-        coq_bool(is_authz), coq_kwargs(kw, jar), coq_dict(model_params),
+        coq_bool(is_authz), coq_kwargs(kw, jar, dec), coq_dict(model_params),
         coq_opt(tok if has_tok else None, coq_token, "token"), coq_z(case["now"]), coq_hash_table(hashed),
         coq_res_dict(out) if out[0] == "ok" else coq_exc(out[1]))
     return out, term, kw
